@@ -239,7 +239,7 @@ def P_jc(t, i, j):
     return (nf.const(1) / 4 if isinstance(t, nf.RF) else 0.25) - e / 4
 
 
-def scn_model(newick, taxa_names, seqs, dates, tree_kind, clock, site, K, tip_states, use_amb, batch, subst_kind="stub"):
+def scn_model(newick, taxa_names, seqs, dates, tree_kind, clock, site, K, tip_states, use_amb, batch, subst_kind="stub", rescale=False):
     """tree_kind: 'unrooted' | 'time'; clock: None|'strict'|'simple'; site: 'constant'|'weibull'|'invariant'"""
     batch = tuple(batch)
     T = len(taxa_names)
@@ -296,7 +296,17 @@ def scn_model(newick, taxa_names, seqs, dates, tree_kind, clock, site, K, tip_st
             from torchtree.evolution.substitution_model.nucleotide import JC69
             subst = JC69("jc")
         model = TreeLikelihoodModel("like", sp, tm, subst, sm, cm, use_ambiguities=use_amb, use_tip_states=tip_states)
-        res = model()
+        if rescale:
+            # the rescaled evaluation path of the model (the marginal is the same number); torch.max is replaced by
+            # its contract "some positive scaler" as in C03
+            import contracts.C03 as C03
+            import torchtree.evolution.tree_likelihood as tlm
+            from vt.stubs import symbolic_factories
+            model.rescale = True
+            with symbolic_factories(tlm, extra={"max": C03._max_contract(mk, [0])}, enabled=mk.symbolic):
+                res = model()
+        else:
+            res = model()
         # ---- oracle
         site_rates = mk.lift(sm.rates())
         site_probs = mk.lift(sm.probabilities())
@@ -638,6 +648,13 @@ def obligations(tier, seed):
     add("C01.model.JC69[((A,B),(C,D));,time,strict,invariant]", "scn_model",
         ("((A,B),(C,D));", ["A", "B", "C", "D"], ["AC", "CG", "GT", "TN"], [0.0, 1.0, 0.0, 2.0], "time", "strict", "invariant", 2, False, True, (2,), "JC69"),
         "TreeLikelihoodModel pipeline with the real JC69 model ≡ marginal sum")
+    for ts_ in (False, True):
+        add("C01.model.rescaled[((A,B),C);,unrooted,tipstates=%s]" % ts_, "scn_model",
+            ("((A,B),C);", ["C", "A", "B"], ["ACRA", "CGNC", "GT-G"], [0.0, 0.0, 0.0], "unrooted", None, "weibull", 2, ts_, True, (), "stub", True),
+            "TreeLikelihoodModel pipeline with rescaling on ≡ marginal sum", fns={"P": lambda t, i, j: _pfun(t, i, j, 4)})
+        add("C01.model.rescaled[((A,B),(C,D));,time,strict,tipstates=%s]" % ts_, "scn_model",
+            ("((A,B),(C,D));", ["A", "B", "C", "D"], ["ACA", "CGC", "GTG", "TNT"], [0.0, 1.0, 0.0, 2.0], "time", "strict", "constant", 1, ts_, True, (), "stub", True),
+            "TreeLikelihoodModel pipeline with rescaling on ≡ marginal sum", fns={"P": lambda t, i, j: _pfun(t, i, j, 4)})
     for T in (3, 4, 5, 6):
         obs.append(ob_postorder(T, tier, seed))
     obs.append(ob_tips())
